@@ -631,3 +631,150 @@ Theorem C15_gen_ratio_arms_same : forall o,
   gen_ratio_assign_by_taking = true.
 Proof. exact gen_ratio_arms_same. Qed.
 Print Assumptions C15_gen_ratio_arms_same.
+
+(** ------------------------------------------------------------------------------------------------
+    round 4 *)
+From Dashu Require Import Int.GrlSpec Int.GrlModel Int.GrlLehmer Forms.FormsGcdInst Forms.FormsGcdClosed.
+From Dashu Require Import Float.DivMulModel Float.DivMulProof Float.AddModelProof Float.FixModel Float.FixMulDivProof Forms.FormsR4Spec Forms.FormsFloatR4.
+From Dashu Require Forms.FormsInventoryProofs.
+From DashuGen Require Import FormsCtxGen.
+From DashuGen Require FormsInventory.
+
+(** integer gcd, the five kernel contracts DISCHARGED for the as-is instance (C12: primitive binary gcd,
+    Lehmer loop of gcd_in_place; C02: rem_by_word / rem_by_dword): every ownership form and the call with the
+    operands exchanged build the identical canonical Repr of Z.gcd, all panic exactly for gcd(0, 0); any word
+    size; the only premises left are that the fuels of the model suffice (fuel is not part of the code) *)
+Theorem C15_prim_gcd_asis_total : forall fuel bits a b, 0 <= a -> 0 <= b -> a + b <= Z.of_nat fuel ->
+  prim_gcd_asis fuel bits a b = gcd_spec a b.
+Proof. exact prim_gcd_asis_total. Qed.
+Print Assumptions C15_prim_gcd_asis_total.
+
+Theorem C15_gcd_in_place_total : forall lf pf mdl w x y, 2 <= w -> 3 <= mdl -> 0 <= y <= x ->
+  x + y < Z.of_nat lf -> 2 * 2 ^ (2 * w) <= Z.of_nat pf ->
+  exists sw, gcd_in_place_gen lf pf mdl w x y = Ok (Z.gcd x y, sw).
+Proof. exact gcd_in_place_total. Qed.
+Print Assumptions C15_gcd_in_place_total.
+
+Theorem C15_ubig_gcd_forms_identical : forall w, 8 <= w -> forall (lf : Z -> Z -> nat) (pf : nat),
+  (forall x y, 0 <= y <= x -> x + y < Z.of_nat (lf x y)) -> 2 * (B w * B w) <= Z.of_nat pf ->
+  forall o o' x y, twf w x -> twf w y ->
+  let f := i_gcd_form_f lf pf w in
+  f o x y = f o' x y /\ f o y x = f o' x y /\
+  (repr_value w x = 0 /\ repr_value w y = 0 -> f o x y = Panic GcdZeroZero) /\
+  (~ (repr_value w x = 0 /\ repr_value w y = 0) ->
+     exists r, f o x y = Ok r /\ repr_value w r = Z.gcd (repr_value w x) (repr_value w y) /\ twf w r).
+Proof. exact ubig_gcd_forms_identical_closed. Qed.
+Print Assumptions C15_ubig_gcd_forms_identical.
+
+(** ... and such fuels exist: the statement without any premise about the model *)
+Theorem C15_ubig_gcd_forms_identical_total : forall w, 8 <= w -> forall o o' x y, twf w x -> twf w y ->
+  let f := i_gcd_form_f lf_total (pf_total w) w in
+  f o x y = f o' x y /\ f o y x = f o' x y /\
+  (repr_value w x = 0 /\ repr_value w y = 0 -> f o x y = Panic GcdZeroZero) /\
+  (~ (repr_value w x = 0 /\ repr_value w y = 0) ->
+     exists r, f o x y = Ok r /\ repr_value w r = Z.gcd (repr_value w x) (repr_value w y) /\ twf w r).
+Proof. exact ubig_gcd_forms_identical_total. Qed.
+Print Assumptions C15_ubig_gcd_forms_identical_total.
+
+(** the instance the oracle runs is this one with the fuels lehmer_fuel / gcd_prim_fuel *)
+Theorem C15_gcd_oracle_instance : forall w, i_gcd_form w = i_gcd_form_f lehmer_fuel gcd_prim_fuel w.
+Proof. exact i_gcd_form_is_f. Qed.
+Print Assumptions C15_gcd_oracle_instance.
+
+(** FBig `*` and `/` after the repairs 675af08 / da565f6: the class float_operand_exceeds_precision is closed.
+    Over the code regenerated from float/src/{mul,div}.rs: every operator arm = the Context method at the
+    larger precision, for ALL operands *)
+Theorem C15_gen_ctx_mul_model : forall B p m s1 e1 s2 e2, gen_ctx_mul B p m s1 e1 s2 e2 = ctx_mul_fix B p m s1 e1 s2 e2.
+Proof. exact gen_ctx_mul_model. Qed.
+Print Assumptions C15_gen_ctx_mul_model.
+
+Theorem C15_gen_ctx_sqr_cubic_model : forall B p m s e,
+  gen_ctx_sqr B p m s e = ctx_sqr_fix B p m s e /\ gen_ctx_cubic B p m s e = ctx_cubic_fix B p m s e /\
+  gen_ctx_sqr B p m s e = gen_ctx_mul B p m s e s e.
+Proof. exact (fun B p m s e => conj (gen_ctx_sqr_model B p m s e) (conj (gen_ctx_cubic_model B p m s e) (gen_ctx_sqr_is_mul B p m s e))). Qed.
+Print Assumptions C15_gen_ctx_sqr_cubic_model.
+
+Theorem C15_gen_div_scale_model : forall B p s1 s2 e2, gen_div_scale B p s1 s2 e2 = div_scale B p s1 s2 e2.
+Proof. exact gen_div_scale_model. Qed.
+Print Assumptions C15_gen_div_scale_model.
+
+Theorem C15_gen_repr_div_checks_model : gen_repr_div_checks = [RdFinite; RdLimited].
+Proof. exact gen_repr_div_checks_model. Qed.
+Print Assumptions C15_gen_repr_div_checks_model.
+
+Theorem C15_gen_ctx_div_inv_model : forall B m p s1 e1 s2 e2,
+  gen_ctx_div (k_repr_div B m) p s1 e1 s2 e2 = fdiv_ctx_r4 B p m s1 e1 s2 e2 /\
+  gen_ctx_inv (k_repr_div B m) p s2 e2 = finv_r4 B p m s2 e2.
+Proof. exact (fun B m p s1 e1 s2 e2 => conj (gen_ctx_div_model B m p s1 e1 s2 e2) (gen_ctx_inv_model B m p s2 e2)). Qed.
+Print Assumptions C15_gen_ctx_div_inv_model.
+
+Theorem C15_float_mul_forms_ctx_r4 : forall o B m p1 s1 e1 p2 s2 e2,
+  gen_fmul o B m p1 s1 e1 p2 s2 e2 = (approx_val (gen_ctx_mul B (ctx_max p1 p2) m s1 e1 s2 e2), ctx_max p1 p2).
+Proof. exact float_mul_forms_ctx_r4. Qed.
+Print Assumptions C15_float_mul_forms_ctx_r4.
+
+Theorem C15_float_div_forms_ctx_r4 : forall o (V : Type) (k : Z -> Z * Z -> Z * Z -> V) p1 s1 e1 p2 s2 e2,
+  gen_fdivrem o k p1 (s1, e1) p2 (s2, e2) = (gen_ctx_div k (ctx_max p1 p2) s1 e1 s2 e2, ctx_max p1 p2).
+Proof. exact float_div_forms_ctx_r4. Qed.
+Print Assumptions C15_float_div_forms_ctx_r4.
+
+(** the hand-written form models: operator = Context method for ALL operands (no length hypothesis) *)
+Theorem C15_float_mul_ctx_agrees_r4 : forall B p m s1 e1 s2 e2,
+  fmul_op B p m s1 e1 s2 e2 = fmul_ctx_r4 B p m s1 e1 s2 e2.
+Proof. exact float_mul_ctx_agrees_r4. Qed.
+Print Assumptions C15_float_mul_ctx_agrees_r4.
+
+Theorem C15_float_div_ctx_agrees_r4 : forall B p m s1 e1 s2 e2,
+  fdiv_op_r4 B p m s1 e1 s2 e2 = fdiv_ctx_r4 B p m s1 e1 s2 e2.
+Proof. exact float_div_ctx_agrees_r4. Qed.
+Print Assumptions C15_float_div_ctx_agrees_r4.
+
+Theorem C15_fdiv_op_r4_eq_pinned : forall B, 2 <= B -> forall p m s1 e1 s2 e2, dlen B s1 <= p + dlen B s2 ->
+  fdiv_op_r4 B p m s1 e1 s2 e2 = fdiv_op B p m s1 e1 s2 e2.
+Proof. exact fdiv_op_r4_eq_pinned. Qed.
+Print Assumptions C15_fdiv_op_r4_eq_pinned.
+
+Theorem C15_float_div_panics_r4 : forall B m s1 e1 s2 e2 p,
+  fdiv_op_r4 B 0 m s1 e1 s2 e2 = Panic UnlimitedPrecision /\ fdiv_ctx_r4 B 0 m s1 e1 s2 e2 = Panic UnlimitedPrecision /\
+  (1 <= p -> fdiv_op_r4 B p m s1 e1 0 e2 = Panic DivideBy0 /\ fdiv_ctx_r4 B p m s1 e1 0 e2 = Panic DivideBy0).
+Proof. exact float_div_panics_r4. Qed.
+Print Assumptions C15_float_div_panics_r4.
+
+(** ... and the common value is the correctly rounded one (C03: Float/FixMulDivProof.v) *)
+Theorem C15_float_mul_forms_rounded_r4 : forall B, 2 <= B -> forall o m p1 s1 e1 p2 s2 e2, 1 <= ctx_max p1 p2 ->
+  exists a, rounded_sum B (ctx_max p1 p2) m (s1 * s2) (e1 + e2) a /\
+    gen_fmul o B m p1 s1 e1 p2 s2 e2 = (approx_val a, ctx_max p1 p2) /\
+    gen_ctx_mul B (ctx_max p1 p2) m s1 e1 s2 e2 = a.
+Proof. exact float_mul_forms_rounded_r4. Qed.
+Print Assumptions C15_float_mul_forms_rounded_r4.
+
+Theorem C15_float_div_forms_rounded_r4 : forall B, 2 <= B -> forall o m p1 s1 e1 p2 s2 e2, 1 <= ctx_max p1 p2 -> s2 <> 0 ->
+  let p := ctx_max p1 p2 in
+  let j := div_excess B p s1 s2 in
+  let k := repr_div_shift B p s1 (s2 * B ^ j) in
+  exists a, rounded_quot B p m (Z.sgn s2 * (s1 * B ^ k)) (Z.abs s2 * B ^ j) a /\ approx_exp a = e1 - e2 + j - k /\
+    gen_fdivrem o (k_repr_div B m) p1 (s1, e1) p2 (s2, e2) = (Ok (approx_val a), p) /\
+    gen_ctx_div (k_repr_div B m) p s1 e1 s2 e2 = Ok (approx_val a).
+Proof. exact float_div_forms_rounded_r4. Qed.
+Print Assumptions C15_float_div_forms_rounded_r4.
+
+(** the repairs refute the pinned code on the witnesses of the (now fixed) finding *)
+Theorem C15_float_mul_div_repaired :
+  fmul_op 10 2 MHalfAway 12495001 0 1 0 = (12, 6) /\ approx_val (ctx_mul 10 2 MHalfAway 12495001 0 1 0) = (13, 6) /\
+  fmul_ctx_r4 10 2 MHalfAway 12495001 0 1 0 = (12, 6) /\
+  fdiv_op 10 2 MHalfAway 99999999 0 3 0 = Panic Undocumented /\ fdiv_ctx 10 2 MHalfAway 99999999 0 3 0 = Ok (33, 6) /\
+  fdiv_op_r4 10 2 MHalfAway 99999999 0 3 0 = Ok (333, 5) /\ fdiv_ctx_r4 10 2 MHalfAway 99999999 0 3 0 = Ok (333, 5).
+Proof. exact float_mul_div_repaired. Qed.
+Print Assumptions C15_float_mul_div_repaired.
+
+(** the inventory of operator-trait impls after macro expansion (regenerated from the rustdoc JSON of the working
+    tree): Output types of the primitive-operand forms = the model; all ownership variants of one operator return
+    the same types.  Finite domain: the generated table (FormsInventory.inventory_size rows) *)
+Theorem C15_inventory_prim_out : forall r, In r FormsInventory.inventory -> FormsInventoryProofs.row_prim_ok r = true.
+Proof. exact FormsInventoryProofs.inventory_prim_out. Qed.
+Print Assumptions C15_inventory_prim_out.
+
+Theorem C15_inventory_outputs_uniform : forall a b, In a FormsInventory.inventory -> In b FormsInventory.inventory ->
+  FormsInventoryProofs.same_op a b = true -> FormsInventoryProofs.same_out a b = true.
+Proof. exact FormsInventoryProofs.inventory_outputs_uniform. Qed.
+Print Assumptions C15_inventory_outputs_uniform.
